@@ -21,7 +21,7 @@ pub struct Runner {
 }
 
 macro_rules! r {
-    ($v:ident, $name:expr, ($($p:ident : $t:ty),*) -> $ret:ty, $body:literal, $gen:expr, $oracle:expr) => {
+    ($v:ident, $name:expr, ($($p:ident : $t:ty),*) -> $ret:ty, $body:expr, $gen:expr, $oracle:expr) => {
         $v.push(Runner {
             name: $name,
             params: vec![$((stringify!($p).to_string(), <$t as T>::n())),*],
@@ -87,6 +87,148 @@ fn lines_slice(s: &str, i: u64, j: u64) -> Option<String> {
     }
 }
 fn macro_rules_float() {}
+
+/// Operation histories on ONE StringBuf (and an alias `b2` of it). Letters:
+/// `c`/`s`/`R` = push_char / push_string / as_string through `b`,
+/// `C`/`S`/`r` = the same through the alias; a leading `N` starts from
+/// `StringBuf.new()` instead of `StringBuf.from(a)`. Every history ends with a
+/// read; EVERY read is observed. All histories of up to 4 operations over
+/// {c, s, R} (each history shape is a class of its own), then a fixed
+/// pseudo-random set of longer ones with aliases.
+pub fn buf_templates() -> Vec<String> {
+    let mut out: Vec<String> = vec![];
+    let mut layer: Vec<String> = vec![String::new()];
+    for _ in 0..4 {
+        let mut next = vec![];
+        for p in &layer {
+            for op in ['c', 's', 'R'] {
+                next.push(format!("{p}{op}"));
+            }
+        }
+        out.extend(next.iter().cloned());
+        layer = next;
+    }
+    let mut p = rotov_harness::Prng::new(0xC17_B0F);
+    let ops = ['c', 's', 'R', 'C', 'S', 'r', 'R', 'c'];
+    for i in 0..48u64 {
+        let n = 4 + p.below(7);
+        let mut t = if i % 4 == 3 { "N".to_string() } else { String::new() };
+        for _ in 0..n {
+            t.push(*p.pick(&ops));
+        }
+        if !out.contains(&t) {
+            out.push(t);
+        }
+    }
+    out
+}
+
+pub fn buf_script(t: &str) -> String {
+    let init = if t.starts_with('N') { "StringBuf.new()" } else { "StringBuf.from(a)" };
+    let mut src = format!("let b = {init}; let b2 = b; let out: List[String] = List.new(); ");
+    let (mut nc, mut ns) = (0, 0);
+    for op in t.chars() {
+        let h = if matches!(op, 'c' | 's' | 'R') { "b" } else { "b2" };
+        match op {
+            'c' | 'C' => {
+                src.push_str(&format!("{h}.push_char(c{}); ", nc % 2 + 1));
+                nc += 1;
+            }
+            's' | 'S' => {
+                src.push_str(&format!("{h}.push_string(s{}); ", ns % 2 + 1));
+                ns += 1;
+            }
+            'R' | 'r' => src.push_str(&format!("out.push({h}.as_string()); ")),
+            _ => {}
+        }
+    }
+    src.push_str("out.push(b.as_string()); out");
+    src
+}
+
+/// the pushes/reads of a template with the concrete arguments filled in
+pub enum BufEv {
+    C(char),
+    S(String),
+    Read,
+}
+pub fn buf_events(t: &str, cs: [char; 2], ss: [&str; 2]) -> Vec<BufEv> {
+    let (mut nc, mut ns) = (0, 0);
+    let mut ev = vec![];
+    for op in t.chars() {
+        match op {
+            'c' | 'C' => {
+                ev.push(BufEv::C(cs[nc % 2]));
+                nc += 1;
+            }
+            's' | 'S' => {
+                ev.push(BufEv::S(ss[ns % 2].to_string()));
+                ns += 1;
+            }
+            'R' | 'r' => ev.push(BufEv::Read),
+            _ => {}
+        }
+    }
+    ev.push(BufEv::Read);
+    ev
+}
+
+/// violation key of a failing history: what was pushed between the previous
+/// read and the FIRST wrong read (so that one defect is one key, not one per history)
+pub fn buf_diagnose(args: &[A], got: &str) -> String {
+    let t = args[0].s();
+    let want = buf_oracle(t, args[1].s(), [args[2].c(), args[3].c()], [args[4].s(), args[5].s()]);
+    let mut prefix = String::from("[");
+    let mut first_wrong = want.len();
+    for (k, w) in want.iter().enumerate() {
+        if k > 0 {
+            prefix.push_str(", ");
+        }
+        prefix.push_str(&format!("{w:?}"));
+        if !got.starts_with(&prefix) {
+            first_wrong = k;
+            break;
+        }
+    }
+    let (mut reads, mut seg, mut any_read) = (0usize, std::collections::BTreeSet::new(), false);
+    for op in t.chars().chain(std::iter::once('R')) {
+        match op {
+            'R' | 'r' => {
+                if reads == first_wrong {
+                    break;
+                }
+                reads += 1;
+                any_read = true;
+                seg.clear();
+            }
+            'c' | 'C' => {
+                seg.insert("push_char");
+            }
+            's' | 'S' => {
+                seg.insert("push_string");
+            }
+            _ => {}
+        }
+    }
+    let since = if any_read { "since-previous-read" } else { "before-first-read" };
+    let what = if seg.is_empty() { "nothing".to_string() } else { seg.into_iter().collect::<Vec<_>>().join("+") };
+    let alias = if t.chars().any(|c| matches!(c, 'C' | 'S' | 'r')) { " aliased" } else { "" };
+    format!("first-wrong-read pushed={what} {since}{alias} init={}", if t.starts_with('N') { "new" } else { "from" })
+}
+
+/// documented meaning: every read returns the initial contents followed by everything pushed before it
+fn buf_oracle(t: &str, a: &str, cs: [char; 2], ss: [&str; 2]) -> Vec<String> {
+    let mut acc = if t.starts_with('N') { String::new() } else { a.to_string() };
+    let mut out = vec![];
+    for e in buf_events(t, cs, ss) {
+        match e {
+            BufEv::C(c) => acc.push(c),
+            BufEv::S(s) => acc.push_str(&s),
+            BufEv::Read => out.push(acc.clone()),
+        }
+    }
+    out
+}
 
 macro_rules! float_runners {
     ($v:ident, $tag:ident, $g1:expr, $g2:expr, $pre:literal) => {
@@ -160,6 +302,15 @@ pub fn runners() -> Vec<Runner> {
         "let b = StringBuf.from(a); let b2 = b; b2.push_char(c1); b.push_string(s2); let x = b.as_string(); b2.push_char(c3); b.push_string(s4); if x == a.append(c1.to_string()).append(s2) { b2.as_string() } else { \"intermediate as_string wrong: \".append(x) }",
         G::Buf("cscs"),
         { let mut o = a.clone(); o.push(c1); o.push_str(&s2); o.push(c3); o.push_str(&s4); o });
+
+    // ---- StringBuf histories: pushes and READS interleaved, through the handle and through an alias ----
+    // (argument 0 is the template itself; the script ignores it, the oracle and the Lean model interpret it)
+    for t in buf_templates() {
+        let name: &'static str = Box::leak(format!("StringBuf.as_string#{t}").into_boxed_str());
+        let body: &'static str = Box::leak(buf_script(&t).into_boxed_str());
+        r!(v_, name, (t: S, a: S, c1: C, c2: C, s1: S, s2: S) -> L<S>, body, G::BufSeq(Box::leak(t.clone().into_boxed_str())),
+            buf_oracle(&t, &a, [c1, c2], [s1.as_str(), s2.as_str()]));
+    }
 
     // ---- to_string of the primitives --------------------------------------
     r!(v_, "bool.to_string", (x: B) -> S, "x.to_string()", G::Bool, format!("{}", x));
